@@ -21,7 +21,7 @@ fn alphabet() -> Vec<Tok> {
 }
 
 pub fn run(ctx: &Ctx) -> Report {
-    let depth = ctx.tier.pick(5, 6);
+    let depth = ctx.tier.pick(6, 8);
     let sk = engine_in::sequences(&alphabet(), depth);
     let n_sk = sk.len();
     let tid = (ctx.seeded(10) as u128) << 8 | 1;
